@@ -685,89 +685,34 @@ func (x *c04) regionRule(rule string, names []string) {
 		if args[2] != ssa.Value(flagsP) {
 			bad = "the flags are not passed to the map call unchanged"
 		}
-		// loop variables
-		pagePhi, _ := stripConv(args[0]).(*ssa.Phi)
-		stepOne := func(phi *ssa.Phi) bool {
-			if phi == nil {
-				return false
-			}
-			for _, e := range phi.Edges {
-				if b, ok := e.(*ssa.BinOp); ok && b.Op == token.ADD && b.X == ssa.Value(phi) {
-					if k, ok := constInt64(b.Y); ok && k == 1 {
-						return true
-					}
-				}
-			}
-			return false
+		// the loop in induction form: page and frame as functions of the
+		// iteration number T, and the trip count
+		lf, inLoop := g.loopFormAt(z, g.Ins[cn].Block())
+		if !inLoop {
+			bad = "the map call is not in a loop"
 		}
-		if bad == "" && !stepOne(pagePhi) {
-			bad = "the page does not advance by one per iteration"
-		}
-		framePhi, _ := args[1].(*ssa.Phi)
-		switch {
-		case bad != "":
-		case framePhi != nil && framePhi != pagePhi:
-			if !stepOne(framePhi) || framePhi.Block() != pagePhi.Block() {
-				bad = "the frame does not advance by one together with the page"
-			}
-			// frame starts at the frame parameter
-			startOK := false
-			for _, e := range framePhi.Edges {
-				if p, ok := e.(*ssa.Parameter); ok && p == fn.Params[0] {
-					startOK = true
-				}
-			}
-			if !startOK {
-				bad = "the first frame mapped is not the requested start frame"
-			}
-		case stripConv(args[1]) == ssa.Value(pagePhi):
-			// identity mapping: frame == page
-		default:
-			bad = "the frame passed to the map call is not a loop variable advancing with the page"
-		}
-		// number of iterations = cdiv12(size)
 		if bad == "" {
-			want := "cdiv12(size)"
-			countOK := false
-			for _, f := range g.FactsAt(cn) {
-				if f.Y == nil {
-					continue
+			_, pStep, okP := lf.affineInT(args[0])
+			fFirst, fStep, okF := lf.affineInT(args[1])
+			one := func(p Poly) bool { k, ok := p.isConst(); return ok && k == 1 }
+			switch {
+			case !okP || !one(pStep):
+				bad = "the page does not advance by one per iteration"
+			case z.Of(args[1]).equal(z.Of(args[0])):
+				// identity mapping: frame == page
+			case !okF || !one(fStep):
+				bad = "the frame does not advance by one together with the page"
+			default:
+				lf.Done()
+				if !fFirst.equal(z.Of(fn.Params[0])) {
+					bad = "the first frame mapped is not the requested start frame"
 				}
-				l, r := z.Of(f.X), z.Of(f.Y)
-				// countdown: phi:pageCount > 0 with pageCount starting at cdiv12(size) stepping -1
-				if f.Op == token.GTR && r.String() == "0" {
-					if phi, ok := f.X.(*ssa.Phi); ok {
-						init, dec := false, false
-						for _, e := range phi.Edges {
-							pe := z.Of(e)
-							if pe.String() == want {
-								init = true
-							}
-							if pe.equal(polyAtom(z.defaultAtom(phi)).add(polyConst(1), -1)) {
-								dec = true
-							}
-						}
-						countOK = countOK || (init && dec)
-					}
-				}
-				// count-up: curPage < start + cdiv12(size)
-				if f.Op == token.LSS {
-					if phi, ok := f.X.(*ssa.Phi); ok && phi == pagePhi {
-						for _, e := range phi.Edges {
-							if _, isAdd := e.(*ssa.BinOp); isAdd {
-								continue
-							}
-							if r.add(z.Of(e), -1).String() == want {
-								countOK = true
-							}
-						}
-					}
-				}
-				_ = l
 			}
-			if !countOK {
+			// number of iterations = cdiv12(size)
+			if bad == "" && !(lf.TripsOK && lf.Trips.String() == "cdiv12(size)") {
 				bad = "the number of pages mapped is not cdiv(size, 4096)"
 			}
+			lf.Done()
 		}
 		// first error returned
 		if bad == "" {
